@@ -79,12 +79,32 @@ def parseFlag : String → Option Bool
 
 /-- One cycle of a real session over scripted endpoints:
 `<outcome> ev=<events> anc=<A'> alpha=<tree> beta=<tree> conf=<roots>`. -/
-def sessionCycle (mode : Mode) (portable : Bool) (a : Option Entry) (α β : Scan) : String × CycleResult × Option Entry × Option Entry :=
-  let eps := worldEndpoints α.content β.content (!α.preserves) (!β.preserves)
-  let r := cycle mode portable eps a α β
-  let (α', β') := worldAfter α.content β.content (!α.preserves) (!β.preserves) r.events
+def sessionCycle (mode : Mode) (portable : Bool) (a : Option Entry) (α β : Scan) (docker : Bool := false)
+    (trees : Option (Option Entry × Option Entry) := none) :
+    String × CycleResult × Option Entry × Option Entry :=
+  -- the trees the scripted endpoints hold (by default: what they report)
+  let (αTree, βTree) := trees.getD (α.content, β.content)
+  let eps := worldEndpoints αTree βTree (!α.preserves) (!β.preserves)
+  let r := cycleFromScans mode portable docker eps a α β
+  let (α', β') := worldAfter αTree βTree (!α.preserves) (!β.preserves) r.events
   (showOutcome r.outcome ++ " ev=" ++ showEvents r.events ++ " anc=" ++ showOEntry r.ancestor ++
     " alpha=" ++ showOEntry α' ++ " beta=" ++ showOEntry β' ++ " conf=" ++ showConflictRoots r.conflicts,
    r, α', β')
+
+/-- What a scan with Docker-style ignores reports: the directories at the given
+paths as phantom directories (`harness/scriptx.Phantomize`). -/
+def phantomize (tree : Option Entry) (paths : List Path) : Option Entry :=
+  paths.foldl (fun t p =>
+    match getPath t p with
+    | some (.mk pr cs) =>
+      if pr.kind == .directory then
+        match p with
+        | [] => some (.mk { pr with kind := .phantom } cs)
+        | _ =>
+          match apply t [{ path := p, old := none, new := some (.mk { pr with kind := .phantom } cs) }] with
+          | .ok t' => t'
+          | .error _ => t
+      else t
+    | none => t) tree
 
 end Mutagen.Driver.Cycle
